@@ -571,8 +571,8 @@ func c01NilKeepsContainer() *core.Space {
 func c01OverReferences() *core.Space {
 	type shape struct {
 		name    string
-		a       M      // with references
-		aPlain  M      // the same data with the references substituted
+		a       M // with references
+		aPlain  M // the same data with the references substituted
 		b       M
 		refOnly string // the referenced setting B does not mention
 	}
